@@ -20,9 +20,30 @@ C09RunOK(e) ==
   /\ e.delivered = e.sent
   /\ e.extra <= (IF e.edit = 0 /\ e.kind = "sealed" /\ e.src = 0 /\ e.age + e.offset <= 2 THEN 1 ELSE 0)
 
+\* C08 / C01 (Node.tla BadIsStutter on real nodes): a whole family of datagrams that cannot verify was presented to a node
+\* in a given receiver state: no member may panic the node, cause a reply, reach the interface or change the peer /
+\* pending sets; afterwards the genuine datagram still advances the handshake.  In an unencrypted session ("plain" on
+\* both ends, C02's exception) datagrams from the peer's own address are not authenticated at all: only "no panic".
+\* bad_tail counts members that were accepted because the bytes lying behind the datagram in the reused receive buffer
+\* complete it to the genuine datagram; to the code this is the genuine (verifying) datagram, so it is judged by C01
+\* ("truncation ... is rejected") and not by C08 ("a datagram that fails verification leaves no state behind").
+NodeFamOK(e) ==
+  /\ e.members > 0
+  /\ e.panics = 0
+  /\ (e.state = "estab-plain" /\ e.src = "peer") \/ (e.bad_other = 0 /\ (e.prop = "c01" => e.bad_tail = 0))
+  /\ e.then_completes # "no"
+
+\* C01: after a reliable exchange in which everybody dials everybody, two nodes are peers exactly when each trusts the
+\* other's key (trust[a][b]: node a trusts the key of node b; an empty configured set means "own key only")
+TrustRunOK(e) ==
+  /\ e.panics = 0
+  /\ \A a \in 1..e.n : \A b \in 1..e.n : a # b => (e.conn[a][b] <=> (e.trust[a][b] /\ e.trust[b][a]))
+
 Step(e) ==
   CASE e.op = "c09run"  -> C09RunOK(e)
     [] e.op = "c09skip" -> TRUE
+    [] e.op = "nodefam" -> NodeFamOK(e)
+    [] e.op = "trustrun" -> TrustRunOK(e)
     [] OTHER -> FALSE
 
 Init == l = 1
